@@ -23,7 +23,9 @@ import Amgcl.Model.Basic
 def pointwiseMatrix (norm : K → K) (A : CRS K) (b : Nat) : Outcome (CRS K)
 -- Model/PlainAggregates.lean        plain_aggregates ctor (plain_aggregates.hpp:118-207)
 def strongConnections (epsSq : K) (A : CRS K) : Array (List Bool)
-def aggregateIds (cols : Array (List Nat)) (strong : Array (List Bool)) : Nat × Array Int   -- before renumbering
+def zipGraph (A : CRS K) (S : Array (List Bool)) : SGraph          -- per row the stored (column, flag) pairs
+def aggregateIds (G : SGraph) : Nat × Array Int                     -- greedy pass, before renumbering
+def aggregatesOfGraph (G : SGraph) : Outcome (Nat × Array Int)      -- + empty_level test + renumbering
 def plainAggregates (epsSq : K) (A : CRS K) : Outcome Aggregates
 -- Model/PointwiseAggregates.lean    pointwise_aggregates ctor + remove_small_aggregates
 def pointwiseAggregates (norm : K → K) (epsSq : K) (blockSize minAggregate : Nat) (A : CRS K) : Outcome Aggregates
@@ -33,8 +35,16 @@ def tentativeProlongation (n naggr : Nat) (id : Array Int) : CRS K
 def aggregationTransfer (norm : K → K) (prm : AggrParams K) (A : CRS K) : Outcome (Transfer K)
 -- Model/SmoothedAggregation.lean    smoothed_aggregation<Backend>::transfer_operators (P only)
 def smoothedAggregationTransfer (norm : K → K) (prm : SAParams K) (A : CRS K) : Outcome (Transfer K)
--- Model/ParamGlue.lean (Rat only, executable only): the per-level parameter evolution
-def AggrParamsQ.toModel / SAParamsQ.toModel / SAParamsQ.next
+-- Model/ParamGlue.lean (Rat only, executable only): float-typed parameter expressions
+structure ParamGlue.CoarseningParamsQ (epsStrong blockSize relax estimateSpectralRadius)
+def ParamGlue.CoarseningParamsQ.toAggr : Option (AggrParams Rat)
+def ParamGlue.CoarseningParamsQ.toSA   : Option (SAParams Rat)
+def ParamGlue.CoarseningParamsQ.nextSA : Option CoarseningParamsQ    -- eps_strong *= 0.5
+-- Model/CoarseningPolicy.lean (Rat): (P, R = transpose P) of the l-th transfer_operators call on one object
+def Coarsening.transferAggregation         (p : CoarseningParamsQ) (l : Nat) (A : CRS Rat) : Option (Outcome (CRS Rat × CRS Rat))
+def Coarsening.transferSmoothedAggregation (p : CoarseningParamsQ) (l : Nat) (A : CRS Rat) : Option (Outcome (CRS Rat × CRS Rat))
+def Coarsening.toPolicyTransfer : (Nat → CRS Rat → Option (Outcome (CRS Rat × CRS Rat))) → Nat → CRS Rat → Option (CRS Rat × CRS Rat)
+-- Model/CoarseningChecks.lean: V-grade predicates rsRowSumCheck, ptentShape, reproducesB, orthonormalCols
 ```
 -/
 namespace Amgcl
